@@ -369,9 +369,21 @@ def search(ctx, res, broken):
     return found
 
 
+def finding_inputs():
+    path = os.path.join(os.path.dirname(BUILD), 'findings', 'C11.json')
+    with open(path) as f:
+        return set(json.dumps(e['input'], sort_keys=True) for e in json.load(f) if 'input' in e)
+
+
 def replay(ctx, case):
+    """the oracle on one case.  A listed finding / fixed entry is judged as it stands (mode vs mode
+    and vs the specification); anything else (replay files, shrinking candidates) must be a
+    well-shaped case inside the hypothesis, like the generated ones"""
+    if not G.valid_case(case):
+        return None
+    listed = json.dumps(case, sort_keys=True) in finding_inputs()
     try:
-        _, _, f = evaluate(case, 'replay', gate=False)
+        _, _, f = evaluate(case, 'replay', gate=not listed)
         return f
     finally:
         shutil.rmtree(TREES, ignore_errors=True)
